@@ -93,3 +93,12 @@ claim('C13',
       'temperature is the pin-fraction weighted sum over adjacent subchannels. Does not decide the radiating gap, clad ID >= MW, nor conduction residuals numerically.',
       'Trusted: NumPy models of dsa/interval.py; assumption that conductivity callables return positive values.',
       'DESIGN.md 4 C13')
+claim('C11',
+      'exact polynomial / rational-function algebra (D_poly) on the straight-line closed-form coefficients extracted from the AST; mirror-pair and independence rules',
+      'Static conformance to C11 in DESIGN 4.11, decided algebraically for all values of the atoms: with T(x) = -q x^2/(2k) + c1 x + c2 the coefficients the code computes satisfy '
+      'h_in (t_in - T(-L/2)) = -q L/2 - k c1 and h_out (T(L/2) - t_out) = q L/2 - k c1 identically (coupled), the outer conduction flux vanishes identically (adiabatic), the stored mid-wall '
+      'and surface temperatures are T(0), T(-L/2), T(L/2), the geometry constants are L/2 and L^2/8 of the wall thickness, the low-fidelity formulas satisfy the same identities with q = 0, '
+      'and without heating every wall temperature is a convex combination of the two coolant temperatures. The identities are checked by exact coefficient comparison (Fractions), not by '
+      'sampling. Not decided: floating-point evaluation error.',
+      'Trusted: the atom table mapping source expressions to symbols in dsa/rules/c11.py; dsa/poly.py; positivity of k, h, L.',
+      'DESIGN.md 4 C11')
